@@ -257,7 +257,7 @@ fn read_msg(stream: Arc<Vec<u8>>, sk: &Option<PlainSessionKey>, verifiers: &[&'s
         Some(k) => Opener::SessionKey(k.clone()),
         None => Opener::None,
     };
-    let spec = ReadSpec { armor: false, opener, consumer, verifiers: verifiers.to_vec(), max, streaming_v1: false };
+    let spec = ReadSpec { armor: false, opener, consumer, verifiers: verifiers.to_vec(), max, streaming_v1: false, v1_limit: None };
     guard(|| workload::read_message(input, &spec))
 }
 
